@@ -21,6 +21,7 @@ type RunCfg struct {
 	MaxPaths       int
 	Witnesses      int
 	exhaustiveLast bool
+	xcheckEvery    int // one obligation in this many (by hash) is re-discharged by two other solvers; 0 = none
 }
 
 func (c *RunCfg) knownOpen(id string) bool { return c.Known[id] }
@@ -31,6 +32,8 @@ type Stats struct {
 	Funcs, Stubs                                                       map[string]int
 	Asserts, Reached, Panics, Forks                                    map[string]int
 	SolverTime                                                         time.Duration
+	XChecked, XOpinions                                                int      // obligations re-asked on z3 5.1 and cvc5; second opinions obtained ("unsat" too)
+	XDisagree                                                          []string // second opinions contradicting the verdict (with the query)
 }
 
 func newStats() *Stats {
@@ -48,6 +51,9 @@ func (s *Stats) merge(o *Stats) {
 	s.Unknown += o.Unknown
 	s.Steps += o.Steps
 	s.SolverTime += o.SolverTime
+	s.XChecked += o.XChecked
+	s.XOpinions += o.XOpinions
+	s.XDisagree = append(s.XDisagree, o.XDisagree...)
 	for k, v := range o.Funcs {
 		s.Funcs[k] += v
 	}
